@@ -413,6 +413,39 @@ def run(prog: Program) -> Results:
                         f"scopes_for_owner: the `with` environment name is resolved in `{norm(v)[:70]}`, whose first choice is not the "
                         f"accumulated chain `tuple({acc})`: let layers wrapped directly around the `with` are skipped, so an outer "
                         f"binding of the same name supplies the environment")
+    # the body of `with env; body` is resolved in the chain that contains env: both target resolvers prefer scopes_for_owner(<with>)
+    for key in ("_resolve_target_set_from_expr", "NixSourceCode._resolve_target_set.<resolve_from_expr>"):
+        if not prog.has_func(key):
+            continue
+        g = prog.func(key)
+        for m_ in [n for n in walk_no_nested(g.node) if isinstance(n, ast.Match)]:
+            subj = norm(m_.subject)
+            for cs in m_.cases:
+                pats = cs.pattern.patterns if isinstance(cs.pattern, ast.MatchOr) else [cs.pattern]
+                if not any(isinstance(p_, ast.MatchClass) and norm(p_.cls) == "WithStatement" for p_ in pats):
+                    continue
+                r5.instances += 1
+                # the chain handed to the recursive resolution of the body
+                rec = [c for st in cs.body for c in ast.walk(st) if isinstance(c, ast.Call) and callee(c) in (g.name, "resolve_from_expr", "_resolve_nested", "resolve_nested")]
+                chain = None
+                for c in rec:
+                    for k in c.keywords:
+                        if k.arg in ("scope_chain", "scopes"):
+                            chain = k.value
+                v = chain
+                if isinstance(chain, ast.Name):
+                    ds = [d for st in cs.body for d in ast.walk(st) if isinstance(d, ast.Assign) and norm(d.targets[0]) == chain.id]
+                    v = ds[0].value if len(ds) == 1 else chain
+                first = None
+                if v is not None:
+                    first = v.body if isinstance(v, ast.IfExp) else (v.values[0] if isinstance(v, ast.BoolOp) and isinstance(v.op, ast.Or) else v)
+                ok = first is not None and norm(first) == f"scopes_for_owner({subj})"
+                r5.ob(ok, {"resolver": key, "with_body_chain": norm(v)[:70] if v is not None else None})
+                if not ok:
+                    res.add("R-C10-5", (key, "with body resolved without the with's own environment first"), g.loc(cs.pattern),
+                            f"{key}: the body of a `with` is resolved in `{norm(v)[:70] if v is not None else '?'}`; its first choice must be "
+                            f"`scopes_for_owner({subj})` (the handed-down chain plus this with's environment): for nested withs the inner "
+                            f"environment is dropped, names resolve to the outer one or not at all, and set/rm are refused")
     gi = prog.func("AttributeSet.__getitem__")
     r5.instances += 1
     ctx = [d for d in ast.walk(gi.node) if isinstance(d, ast.Assign) and "scopes_for_owner(self)" in norm(d.value)]
